@@ -744,6 +744,48 @@ theorem properties_get_error_exact (env : Env PV) (L : Lib) (henv : LibEnvOK env
     have t : notReadable.text = "Property is not readable".toList := by decide
     simp only [excOfCat, this, t, pendingOf]
 
+/-- The same for Set and GetAll: `Invalid Property` / `Property is not Writeable` for Set, `Invalid Interface`
+for GetAll - exactly `org.txdbus.PythonException.Exception` with the code's text, the call's serial and sender. -/
+theorem properties_set_getall_error_exact (env : Env PV) (L : Lib) (henv : LibEnvOK env L) (st : Props.St)
+    (ex : Exports) (ops : List (Op PV)) (k : Nat) (c : Call PV)
+    (user : Nat → Outcome PV) (hk : ops[k]? = some (.call c (libBehav L st c user)))
+    (he : c.expectReply = true) (o : Obj) (ho : exported (exportsAt ex ops k) c.path = some o)
+    (hserve : LibraryServes o) (hi : c.iface = some propsName) :
+    (∀ i p v, c.member = setMember → c.sig.getD [] = "ssv".toList → c.body = [.str i, .str p, .val v] →
+      (replyOut (Props.opSet L.cfg L.W st L.o i p v).2 = .err .unknownProp →
+        replies (eventsOf k (run env ex ops).2) =
+          [.err "org.txdbus.PythonException.Exception".toList c.serial c.sender "Invalid Property".toList]) ∧
+      (replyOut (Props.opSet L.cfg L.W st L.o i p v).2 = .err .notWritable →
+        replies (eventsOf k (run env ex ops).2) =
+          [.err "org.txdbus.PythonException.Exception".toList c.serial c.sender "Property is not Writeable".toList])) ∧
+    (∀ i, c.member = getAllMember → c.sig.getD [] = "s".toList → c.body = [.str i] →
+      Props.opGetAll L.cfg L.W st L.o i = .err .unknownIface →
+        replies (eventsOf k (run env ex ops).2) =
+          [.err "org.txdbus.PythonException.Exception".toList c.serial c.sender "Invalid Interface".toList]) := by
+  obtain ⟨n1, _, n3, n4⟩ := table_texts_no_nul
+  constructor
+  · intro i p v hm hsig hb
+    obtain ⟨m, _, hr⟩ := replies_props_served env ex ops k c _ hk he o ho _ _ _ _ hserve.2.1 hi hm hsig L _
+      (libBehav_set L st c user i p v hb)
+    constructor
+    · intro hout
+      rw [hr, hout, fireOutcome_err_exact env L henv _ .unknownProp n1]
+      have : pyExceptionPrefix ++ invalidProperty.cls = "org.txdbus.PythonException.Exception".toList := by decide
+      have t : invalidProperty.text = "Invalid Property".toList := by decide
+      simp only [excOfCat, this, t, pendingOf]
+    · intro hout
+      rw [hr, hout, fireOutcome_err_exact env L henv _ .notWritable n3]
+      have : pyExceptionPrefix ++ notWritable.cls = "org.txdbus.PythonException.Exception".toList := by decide
+      have t : notWritable.text = "Property is not Writeable".toList := by decide
+      simp only [excOfCat, this, t, pendingOf]
+  · intro i hm hsig hb hout
+    obtain ⟨m, _, hr⟩ := replies_props_served env ex ops k c _ hk he o ho _ _ _ _ hserve.2.2 hi hm hsig L _
+      (libBehav_getAll L st c user i hb)
+    rw [hr, hout, fireOutcome_err_exact env L henv _ .unknownIface n4]
+    have : pyExceptionPrefix ++ invalidInterface.cls = "org.txdbus.PythonException.Exception".toList := by decide
+    have t : invalidInterface.text = "Invalid Interface".toList := by decide
+    simp only [excOfCat, this, t, pendingOf]
+
 /-- Properties calls that do not reach the library: on a path that is NOT exported when the call
 arrives the one event is the UnknownObject error - which C17 observes as `err unknownObject`, the
 answer of C17's own `step` for an object that was never exported; with a signature other than the
@@ -790,6 +832,16 @@ theorem properties_lookup_errors (env : Env PV) (ex : Exports) (ops : List (Op P
         obtain ⟨h1, text, h2⟩ := l3 o i m ho ha hne
         refine ⟨m, text, by rw [h1, h2], hs.1.1, ?_⟩
         rw [h1, h2]; rfl
+
+/-- WHEN the library serves the Properties interface (`LibraryServes`, the hypothesis of the composition
+theorems): whenever every class of the object below `DBusObject` leaves the interface alone
+(`LeavesPropsAlone`: declares no interface of that name; defines no `dbus_Get` / `dbus_Set` /
+`dbus_GetAll` - such a method would serve the member on EVERY interface, the Properties one included -
+and no attribute under the names of DBusObject's three functions, which the decorator table takes by
+name from the instance; decorates nothing for the interface).  For any number of such classes. -/
+theorem library_serves_plain_objects (user : List Class) (h : ∀ c ∈ user, LeavesPropsAlone c) :
+    LibraryServes { classes := user ++ [baseClass] } :=
+  libraryServes_of_plain user h
 
 /-- The generated table of the library part (`Gen/DispatchBuiltin.lean`, probed from the source on
 every run) names what the statement and C17 name. -/
@@ -857,6 +909,24 @@ theorem properties_witness :
   decide
 
 example : LibraryServes Example.propObj := by decide
+
+/-- the structural condition holds for the example's user class (it has no attributes and one interface `org.p`) -/
+example : ∀ c ∈ [({ ifaces := some [{ name := "org.p".toList, methods := [] }], attrs := [] } : Class)],
+    LeavesPropsAlone c := by
+  intro c hc
+  simp only [List.mem_singleton] at hc
+  subst hc
+  refine ⟨?_, ?_, ?_⟩
+  · intro i hi
+    simp only [Option.getD_some, List.mem_singleton] at hi
+    subst hi
+    decide
+  · intro a ha; simp at ha
+  · intro a ha; simp at ha
+
+/-- a user `dbus_Get` takes Properties.Get away from the library: the condition is not vacuous -/
+example : ¬ LibraryServes { classes := [{ ifaces := none, attrs := [("dbus_Get".toList, { id := 1, deco := none, params := ["self".toList] })] },
+                                         baseClass] } := by decide
 
 example : LibEnvOK Example.propEnv Example.propLib :=
   { enc := fun _ _ => rfl, fix := rfl, valid := fun _ => rfl, vname := rfl, vcls := by decide }
@@ -975,7 +1045,9 @@ end Txdbus.Obj
 #print axioms Txdbus.Obj.builtin_witness
 #print axioms Txdbus.Obj.properties_call_reply_is_c17
 #print axioms Txdbus.Obj.properties_get_error_exact
+#print axioms Txdbus.Obj.properties_set_getall_error_exact
 #print axioms Txdbus.Obj.properties_lookup_errors
+#print axioms Txdbus.Obj.library_serves_plain_objects
 #print axioms Txdbus.Obj.builtin_table_shape
 #print axioms Txdbus.Obj.properties_witness
 #print axioms Txdbus.Obj.empty_interface_name_binding
